@@ -34,7 +34,7 @@ static void scenario() {
             catch (Thrown&) { r = R_THREW; } catch (std::bad_alloc&) { r = R_THREW; }
             log.end(id, r); } });
     open_window_and_join(ids);
-    vf_liveness(0); g_arm = false;
+    g_arm = false;   /* liveness stays on: the sequential phase that follows must terminate too */
     int threw = 0; for (auto& o : log.ops) if (o.res == R_THREW) threw++;
     if (g_throwat && g_copies >= g_throwat && threw != 1) vf_fail("one element copy threw but %d callers saw an exception: %s", threw, log.str(NAMES).c_str());
     if (!g_throwat && threw) vf_fail("exception without a throwing copy");
